@@ -181,3 +181,85 @@ func ruleQuantizeIntermediateContext(w *World, r *RuleResult) {
 		}
 	}
 }
+
+func init() {
+	register(&Rule{ID: "C12.R4", Min: 1,
+		Text: "Exp's argument reduction is exact: the operand x is only handed to exact Decimal methods (Set, Abs, Neg, Cmp, Sign, …), never as an operand to a rounding Context/ErrDecimal operation — x/10^t is later raised to the power 10^t, which multiplies any digits lost here by 10^t",
+		Run:  ruleExpReductionExact})
+}
+
+func ruleExpReductionExact(w *World, r *RuleResult) {
+	f := w.fn("(*Context).Exp")
+	if f == nil {
+		r.anchorMissing("(*Context).Exp")
+		return
+	}
+	key := "(*Context).Exp | operand reaches the series unrounded"
+	xi := -1
+	for i, p := range f.Params {
+		if i != destArgIndex(w, f) && isDecimalPtr(p.Type()) {
+			xi = i
+		}
+	}
+	if xi < 0 {
+		r.anchorMissing("(*Context).Exp operand parameter")
+		return
+	}
+	x := f.Params[xi]
+	var bad []string
+	n := 0
+	for _, c := range callsIn(f) {
+		g := callee(c)
+		if g == nil || !w.inPkg(g) {
+			continue
+		}
+		recv := g.Signature.Recv()
+		if recv == nil {
+			continue
+		}
+		rt := w.apdTypeName(recv.Type())
+		isOperand := false
+		for j, a := range c.Common().Args {
+			if j > 0 && a == ssa.Value(x) && j != destArgIndex(w, g) {
+				isOperand = true
+			}
+		}
+		if !isOperand {
+			continue
+		}
+		n++
+		if rt != "Context" && rt != "ErrDecimal" {
+			continue // exact Decimal methods
+		}
+		if g.Name() == "shouldSetAsNaN" || g.Name() == "setAsNaN" {
+			continue // NaN handling, no arithmetic
+		}
+		// a context whose precision is computed from x's own digit count loses nothing
+		prec := false
+		for l := range w.valueAndControlLeaves(f, c.Common().Args[0]) {
+			if l == "call:(*Decimal).NumDigits" {
+				prec = true
+			}
+		}
+		if prec {
+			continue
+		}
+		bad = append(bad, fmt.Sprintf("%s at %s rounds the operand itself to the working precision", w.calleeName(c), w.instrPos(c)))
+	}
+	if len(bad) > 0 {
+		r.bad(key, w.pos(f.Pos()), "digits of x beyond the working precision are dropped before the result is raised to the power 10^t (Exp(100.123456789) at precision 5 returned 3.0308E+43 for 3.0413E+43): "+joinStrings(bad))
+	} else {
+		r.ok(key, w.pos(f.Pos()), fmt.Sprintf("x is an operand of %d calls, all of them exact Decimal methods", n), n > 0)
+	}
+}
+
+func joinStrings(s []string) string {
+	out := ""
+	for i, x := range uniqStrings(s) {
+		if i > 0 {
+			out += "; "
+		}
+		out += x
+	}
+	return out
+}
